@@ -592,6 +592,9 @@ def c04_scope(tier):
     P.append(("read-on-right-input", 'Signal x = ("signal-X", 100);\n' + M + 'm.write(((x | "signal-M") - m.read()) % 7);\nSignal out = m.read();\n', [{"x": 100}, {"x": 3}], 2))
     P.append(("untyped", "Memory m;\nm.write(m.read() + 1);\nSignal out = m.read();\n", [{}], 0))
     P.append(("times-const", 'Signal x = ("signal-X", 3);\n' + M + "m.write((m.read() * 2 + x) % 1000);\nSignal out = m.read();\n", [{"x": 3}, {"x": 7}], 2))
+    # one held input feeding two steps of f (their input networks used to be joined through it: wire isolation in C04's shapes)
+    P.append(("input-in-two-steps", 'Signal x = ("signal-X", 3);\n' + M + 'm.write((((m.read() + x) * 2 + x) % 1000) | "signal-M");\nSignal out = m.read();\n', [{"x": 3}, {"x": -2}, {"x": 0}], 2))
+    P.append(("input-times-and-plus", 'Signal x = ("signal-X", 3);\n' + M + 'm.write(((m.read() * x + x) % 1000) | "signal-M");\nSignal out = m.read();\n', [{"x": 3}, {"x": -2}, {"x": 0}], 2))
     return P
 
 
